@@ -53,7 +53,7 @@ def effect_of(e):
 class Enumerator(object):
     def __init__(self, ctx, max_paths=4000, keep_pure_calls=True):
         self.ctx = ctx
-        self.ev = S.Evaluator(ctx.fns, inline_depth=0)
+        self.ev = ctx.evaluator(0)
         self.max_paths = max_paths
 
     def leaf(self, node, path):
